@@ -95,7 +95,7 @@ class World:
                 ops.append(('enter', c))
             elif st == 'E' and not inner_open:
                 ops.append(('exit', c))
-        ops += [('read', 0), ('read', 1)]
+        ops += [('read', 0), ('read', 1), ('badread',)]
         # a write is attempted where it is legitimate: the handle is r+, or the shared map was opened r+ by its first user
         if (self.map_mode or self.handle_mode) == 'r+':
             ops += [('write', 0), ('write', 1)]
@@ -200,6 +200,13 @@ class World:
                 self.cobj[c].__exit__(None, None, None)
                 self._user_finishes(c)
                 self.cstate[c] = 'X'
+            elif kind == 'badread':
+                # an out-of-range read fails; nothing else may be affected by it
+                try:
+                    a[N + 5]
+                    bad('out-of-range read did not raise', f'a[{N + 5}] returned')
+                except IndexError:
+                    label = 'indexerror'
             elif kind == 'badopen':
                 # opening fails part-way (the description file is away for a moment) and, separately, is refused for an
                 # invalid access mode: both must leave the handle as it was (nothing open, later use unaffected)
